@@ -345,11 +345,54 @@ def check_hash_function(ctx: Check, tree: Tree) -> None:
                 [f"{f.qual}: {unparse(c)}" for f, c, _ in bad] or None)
 
 
+DELETERS = {"os.remove", "os.unlink", "os.rmdir", "shutil.rmtree", "os.removedirs", "os.truncate"}
+
+
+def check_foreign_deletes(ctx: Check, tree: Tree) -> None:
+    """R-OWNFILES: several processes share the cache directory.  Nothing reachable from
+    perform_cached_doit deletes, truncates or renames AWAY a file that this call did not create
+    itself (its own mkstemp temporary): a "clean-up" of *.tmp files or of stale entries removes the
+    temporary of a concurrent writer, whose os.replace then raises out of perform_cached_doit."""
+    from ..dataflow import RD
+
+    graph = tree.call_graph()
+    reach = {q for q in tree.reachable(ENTRY, graph) if q.startswith("ampform.sympy") and q in tree.funcs}
+    n = 0
+    for q in sorted(reach):
+        fn = tree.funcs[q]
+        top = fn
+        while top.outer is not None:
+            top = top.outer
+        rd = RD(top.node)
+        for call, callee in tree.calls_in(fn, nested=False):
+            target = None
+            if callee in DELETERS and call.args:
+                target = call.args[0]
+            elif isinstance(call.func, ast.Attribute) and call.func.attr in {"unlink", "rmdir", "rmtree", "write_bytes", "write_text", "truncate"} and callee not in tree.funcs:
+                target = call.func.value
+            if target is None:
+                continue
+            n += 1
+            deps = rd.closure(rd.uses(target))
+            texts = [unparse(target)] + [unparse(d.value) for d in deps if isinstance(d.value, ast.AST)]
+            own = any("mkstemp(" in t or "NamedTemporaryFile(" in t or "mkdtemp(" in t for t in texts)
+            enumerated = any(k in t for t in texts for k in (".glob(", ".iterdir(", "os.listdir(", "os.scandir(", ".rglob(", "os.walk("))
+            loops = [unparse(d.node.iter) for d in deps if d.kind == "for" and isinstance(d.node, ast.For)]
+            enumerated = enumerated or any(k in t for t in loops for k in (".glob(", ".iterdir(", "listdir(", "scandir(", ".rglob(", "os.walk("))
+            ok = own and not enumerated
+            ctx.verdict(ok, "R-OWNFILES", f"{q}::{unparse(call.func)}", tree.loc(call),
+                        f"{q}: `{unparse(call)[:60]}` removes {'its own temporary file (created by mkstemp in this call)' if ok else 'a file this call did not create'}",
+                        None if ok else ("files found by listing the shared cache directory" if enumerated else "the target does not derive from this call's own mkstemp()") + " - may belong to a concurrent process that is between mkstemp and os.replace")
+    if n == 0:
+        ctx.ok("R-OWNFILES", "src/ampform/sympy", "nothing reachable from perform_cached_doit deletes or truncates a file")
+
+
 def run(ctx: Check, tree: Tree) -> None:
     ctx.decided += [
         "R-VERIFY: every value returned by perform_cached_doit is the result of doit() or a loaded value that was compared equal to the query expression on that path",
         "R-TOLERATE: exceptions of pickle.load / opening the cache file cannot propagate out; handler paths reach recomputation",
         "R-PUBLISH: the final file name is only the destination of a rename from a process-unique temporary that has been closed; it is never opened for writing",
+        "R-OWNFILES: the only file ever deleted is the call's own mkstemp temporary (never files found by listing the shared directory)",
         "R-HASHKEY: get_readable_hash depends on the object and the environment variable only",
     ]
     ctx.not_decided += ["that == on SymPy objects is the structural equality the property means (C14 ties it to non-SymPy attributes)", "atomicity of rename (POSIX)", "that doit() itself is deterministic"]
@@ -401,3 +444,4 @@ def run(ctx: Check, tree: Tree) -> None:
     if "R-PUBLISH" not in rules_bad:
         ctx.ok("R-PUBLISH", where, f"final cache file is never opened for writing; {interp.ok_counts['publishes']} path(s) publish by rename from a unique temporary")
     ctx.section(check_hash_function, ctx, tree)
+    ctx.section(check_foreign_deletes, ctx, tree)
